@@ -214,3 +214,133 @@ pub struct C20W2Fail;
 /// }
 /// ```
 pub struct C20W1Twin;
+
+/// C05.W1: `abort(self)` consumes the transaction: nothing can be written through it afterwards.
+/// ```compile_fail,E0382
+/// use redb::{Database, TableDefinition};
+/// const T: TableDefinition<u64, u64> = TableDefinition::new("t");
+/// fn main() -> Result<(), redb::Error> {
+///     let db = Database::create("x.redb")?;
+///     let w = db.begin_write()?;
+///     w.abort()?;
+///     let _t = w.open_table(T)?; // use after move
+///     Ok(())
+/// }
+/// ```
+pub struct C05W1Fail;
+
+/// ```no_run
+/// use redb::{Database, TableDefinition};
+/// const T: TableDefinition<u64, u64> = TableDefinition::new("t");
+/// fn main() -> Result<(), redb::Error> {
+///     let db = Database::create("x.redb")?;
+///     let w = db.begin_write()?;
+///     { let _t = w.open_table(T)?; }
+///     w.abort()?;
+///     Ok(())
+/// }
+/// ```
+pub struct C05W1Twin;
+
+/// C01.W3: the in-place mutable value handle borrows the table exclusively: the page it points
+/// into cannot be read or rewritten through the table while the handle lives.
+/// ```compile_fail,E0502
+/// use redb::{Database, ReadableTable, TableDefinition};
+/// const T: TableDefinition<u64, &[u8]> = TableDefinition::new("t");
+/// fn main() -> Result<(), redb::Error> {
+///     let db = Database::create("x.redb")?;
+///     let w = db.begin_write()?;
+///     {
+///         let mut t = w.open_table(T)?;
+///         let mut g = t.insert_reserve(&1, 8)?;
+///         let _ = t.get(&1)?; // shared borrow while `g` holds the exclusive one
+///         g.as_mut()[0] = 1;
+///     }
+///     w.commit()?;
+///     Ok(())
+/// }
+/// ```
+pub struct C01W3Fail;
+
+/// ```no_run
+/// use redb::{Database, ReadableTable, TableDefinition};
+/// const T: TableDefinition<u64, &[u8]> = TableDefinition::new("t");
+/// fn main() -> Result<(), redb::Error> {
+///     let db = Database::create("x.redb")?;
+///     let w = db.begin_write()?;
+///     {
+///         let mut t = w.open_table(T)?;
+///         let mut g = t.insert_reserve(&1, 8)?;
+///         g.as_mut()[0] = 1;
+///         drop(g);
+///         let _ = t.get(&1)?;
+///     }
+///     w.commit()?;
+///     Ok(())
+/// }
+/// ```
+pub struct C01W3Twin;
+
+/// C05.W2: a draining iterator borrows the table exclusively: no other operation on the table can
+/// run between two of its steps.
+/// ```compile_fail,E0499
+/// use redb::{Database, TableDefinition};
+/// const T: TableDefinition<u64, u64> = TableDefinition::new("t");
+/// fn main() -> Result<(), redb::Error> {
+///     let db = Database::create("x.redb")?;
+///     let w = db.begin_write()?;
+///     {
+///         let mut t = w.open_table(T)?;
+///         let mut it = t.extract_if(|k, _| k % 2 == 0)?;
+///         t.insert(&1, &1)?; // second exclusive borrow while the iterator lives
+///         let _ = it.next();
+///     }
+///     w.commit()?;
+///     Ok(())
+/// }
+/// ```
+pub struct C05W2Fail;
+
+/// ```no_run
+/// use redb::{Database, TableDefinition};
+/// const T: TableDefinition<u64, u64> = TableDefinition::new("t");
+/// fn main() -> Result<(), redb::Error> {
+///     let db = Database::create("x.redb")?;
+///     let w = db.begin_write()?;
+///     {
+///         let mut t = w.open_table(T)?;
+///         let mut it = t.extract_if(|k, _| k % 2 == 0)?;
+///         let _ = it.next();
+///         drop(it);
+///         t.insert(&1, &1)?;
+///     }
+///     w.commit()?;
+///     Ok(())
+/// }
+/// ```
+pub struct C05W2Twin;
+
+/// C16.W2: there is one handle per write transaction: it cannot be duplicated.
+/// ```compile_fail,E0599
+/// use redb::Database;
+/// fn main() -> Result<(), redb::Error> {
+///     let db = Database::create("x.redb")?;
+///     let w = db.begin_write()?;
+///     let w2 = w.clone(); // WriteTransaction is not Clone
+///     w.commit()?;
+///     w2.commit()?;
+///     Ok(())
+/// }
+/// ```
+pub struct C16W2Fail;
+
+/// ```no_run
+/// use redb::Database;
+/// fn main() -> Result<(), redb::Error> {
+///     let db = Database::create("x.redb")?;
+///     let w = db.begin_write()?;
+///     w.commit()?;
+///     Ok(())
+/// }
+/// ```
+pub struct C16W2Twin;
